@@ -22,6 +22,7 @@ WORK = os.path.join(ROOT, ".work")
 BIN = os.path.join(ROOT, ".build")
 REPO = os.environ.get("VERIF_REPO", "/repo")      # a scratch worktree may be substituted for mutation testing
 ALT = REPO != "/repo"
+_RUN_LOCK = None
 ALLOWED_AXIOMS = {"propext", "Classical.choice", "Quot.sound"}
 FORBIDDEN = re.compile(r"\bsorry\b|\badmit\b|^\s*axiom\s|native_decide|bv_decide|implemented_by|\bunsafe\s|maxHeartbeats\s+0\b|@\[extern")
 
@@ -405,6 +406,11 @@ def main():
     n = a.cases or cfg["cases"][tier]
     work = os.path.join(WORK, pid + ("-alt" if ALT else ""))
     os.makedirs(work, exist_ok=True)
+    # one check per property and work directory at a time: concurrent runs of the same property would
+    # overwrite each other's case/verdict files (and, with a translator, the regenerated facts)
+    global _RUN_LOCK
+    _RUN_LOCK = open(os.path.join(WORK, pid + ".run.lock"), "w")
+    fcntl.flock(_RUN_LOCK, fcntl.LOCK_EX)
     notes, violations, known_lines = [], [], []
     known = load_known(pid)
     known_ids = {k["id"] for k in known if k.get("status") == "known"}
